@@ -310,3 +310,19 @@ def check(ctx):
     # caller stays blocked in its cancelled scope until the thread returns) (shared with C14/R14-e)
     from .c14 import cancellable_alias
     cancellable_alias(ctx, "R03-m")
+
+
+def _deadline_rules(ctx):
+    # ---- R03-n / R03-o a deadline is a cancellation source like cancel(): "nothing stays blocked in a cancelled scope" covers a scope
+    # whose deadline has passed - a past, zero or -inf deadline included - so the timer is armed / the scope cancelled for every deadline
+    # that is not +inf, and the timeout helpers hand the caller's deadline to the scope unchanged (shared with C06/R06-a, R06-d)
+    from .common import shared_rules
+    shared_rules(ctx, "c06", {"R06-a": "R03-n", "R06-d": "R03-o"})
+
+
+_check_core = check
+
+
+def check(ctx):
+    _check_core(ctx)
+    _deadline_rules(ctx)
